@@ -341,6 +341,10 @@ fn curve_case(ctx: &mut Ctx) {
         let (svg_a2, what2) = gen_svg_arc(rng, svg_p1, c);
         let names = ["curves", "curves2", "shared-edge", "circle", "ellipse", "tess-ellipse", "rounded-rect", "tess-circle", "svg-arc"];
         let name = names[kind as usize];
+        // entry point and sweep orientation for the curved-path kinds (0, 1): the id-based and the
+        // attribute-carrying routes build the event queue through different code (set_path_with_ids)
+        let entry = rng.below(5);
+        let horizontal = rng.chance(1, 2);
         let mut args = Out::new();
         args.t(name).f(tol).u(if rule == FillRule::EvenOdd { 0 } else { 1 }).p(c).f(r).f(r2).f(rot);
         if svg {
@@ -352,7 +356,7 @@ fn curve_case(ctx: &mut Ctx) {
         let tag = if svg {
             format!("curve svg-arc {}{} layout={} tol={}", what1, if svg_layout == 2 { format!("+{}", what2) } else { String::new() }, svg_layout, tol)
         } else {
-            format!("curve {} tol={}", name, tol)
+            format!("curve {} tol={}{}", name, tol, if kind <= 1 { format!(" entry={} {}", entry, if horizontal { "h" } else { "v" }) } else { String::new() })
         };
         (args, tag, move || {
             let opts = FillOptions::tolerance(tol).with_fill_rule(rule);
@@ -388,8 +392,64 @@ fn curve_case(ctx: &mut Ctx) {
                     }
                     let path = path_b.build();
                     let (e, eps) = reference_edges(&path, eps_t);
+                    let opts = if horizontal { opts.with_sweep_orientation(lyon_tessellation::Orientation::Horizontal) } else { opts };
                     let mut bb = BuffersBuilder::new(&mut mesh, Positions);
-                    (tess.tessellate_path(&path, &opts, &mut bb).map_err(|e| format!("{:?}", e)), e, eps, 0.0)
+                    let r = match entry {
+                        0 => tess.tessellate_path(&path, &opts, &mut bb),
+                        1 => tess.tessellate(path.iter(), &opts, &mut bb),
+                        2 => tess.tessellate_with_ids(path.id_iter(), &path, None, &opts, &mut bb),
+                        3 => {
+                            // the same geometry stored with one custom attribute: tessellate_path takes
+                            // the id-based route
+                            let mut pb = Path::builder_with_attributes(1);
+                            for ev in path.iter() {
+                                match ev {
+                                    lyon_path::Event::Begin { at } => {
+                                        pb.begin(at, &[1.0]);
+                                    }
+                                    lyon_path::Event::Line { to, .. } => {
+                                        pb.line_to(to, &[2.0]);
+                                    }
+                                    lyon_path::Event::Quadratic { ctrl, to, .. } => {
+                                        pb.quadratic_bezier_to(ctrl, to, &[3.0]);
+                                    }
+                                    lyon_path::Event::Cubic { ctrl1, ctrl2, to, .. } => {
+                                        pb.cubic_bezier_to(ctrl1, ctrl2, to, &[4.0]);
+                                    }
+                                    lyon_path::Event::End { close, .. } => {
+                                        pb.end(close);
+                                    }
+                                }
+                            }
+                            let pa = pb.build();
+                            tess.tessellate_path(&pa, &opts, &mut bb)
+                        }
+                        _ => {
+                            use lyon_path::builder::PathBuilder;
+                            let mut fb = tess.builder(&opts, &mut bb);
+                            for ev in path.iter() {
+                                match ev {
+                                    lyon_path::Event::Begin { at } => {
+                                        fb.begin(at);
+                                    }
+                                    lyon_path::Event::Line { to, .. } => {
+                                        fb.line_to(to);
+                                    }
+                                    lyon_path::Event::Quadratic { ctrl, to, .. } => {
+                                        fb.quadratic_bezier_to(ctrl, to);
+                                    }
+                                    lyon_path::Event::Cubic { ctrl1, ctrl2, to, .. } => {
+                                        fb.cubic_bezier_to(ctrl1, ctrl2, to);
+                                    }
+                                    lyon_path::Event::End { close, .. } => {
+                                        fb.end(close);
+                                    }
+                                }
+                            }
+                            fb.build()
+                        }
+                    };
+                    (r.map_err(|e| format!("{:?}", e)), e, eps, 0.0)
                 }
                 2 => {
                     // two regions sharing the curved edge a→b, traversed in opposite directions;
@@ -451,28 +511,54 @@ fn curve_case(ctx: &mut Ctx) {
                 }
                 6 => {
                     let (w, h) = (2.0 * r + 1.0, 2.0 * r2 + 1.0);
-                    let rad = (rot.abs() / 3.0) * w.min(h) * 0.5;
+                    // four independent corner radii (top-left, top-right, bottom-right, bottom-left) that FIT
+                    // the rectangle (no clamping needed: the exact shape is then unambiguous), up to half the
+                    // LONGER side so that the width/height roles of the four fit conditions are told apart;
+                    // one case in three keeps the uniform radius
+                    let uni = (rot.abs() / 3.0) * w.min(h) * 0.5;
+                    let hm = w.max(h) * 0.5;
+                    let mut rr = [
+                        (rng_f(&rnd, 0).abs() * 0.1 * hm).min(w.min(h)),
+                        (rng_f(&rnd, 1).abs() * 0.1 * hm).min(w.min(h)),
+                        (rng_f(&rnd, 2).abs() * 0.1 * hm).min(w.min(h)),
+                        (rng_f(&rnd, 3).abs() * 0.1 * hm).min(w.min(h)),
+                    ];
+                    if (rnd[4].x.to_bits() >> 3) % 3 == 0 {
+                        rr = [uni; 4];
+                    }
+                    // fit: tl+tr <= w, bl+br <= w, tr+br <= h, tl+bl <= h
+                    let mut f = 1.0f32;
+                    for (a, b, lim) in [(rr[0], rr[1], w), (rr[3], rr[2], w), (rr[1], rr[2], h), (rr[0], rr[3], h)] {
+                        if a + b > lim * 0.999 {
+                            f = f.min(lim * 0.999 / (a + b));
+                        }
+                    }
+                    for x in rr.iter_mut() {
+                        *x *= f;
+                    }
                     let rect = Box2D { min: c, max: point(c.x + w, c.y + h) };
-                    path_b.add_rounded_rectangle(&rect, &BorderRadii::new(rad), want);
+                    let radii = BorderRadii { top_left: rr[0], top_right: rr[1], bottom_right: rr[2], bottom_left: rr[3] };
+                    path_b.add_rounded_rectangle(&rect, &radii, want);
                     let path = path_b.build();
                     // reference: straight sides + exact quarter circles
                     let mut pts: Vec<Point> = Vec::new();
                     let corners = [
-                        (point(rect.min.x + rad, rect.min.y + rad), std::f64::consts::PI),
-                        (point(rect.max.x - rad, rect.min.y + rad), 1.5 * std::f64::consts::PI),
-                        (point(rect.max.x - rad, rect.max.y - rad), 0.0),
-                        (point(rect.min.x + rad, rect.max.y - rad), 0.5 * std::f64::consts::PI),
+                        (point(rect.min.x + rr[0], rect.min.y + rr[0]), std::f64::consts::PI, rr[0]),
+                        (point(rect.max.x - rr[1], rect.min.y + rr[1]), 1.5 * std::f64::consts::PI, rr[1]),
+                        (point(rect.max.x - rr[2], rect.max.y - rr[2]), 0.0, rr[2]),
+                        (point(rect.min.x + rr[3], rect.max.y - rr[3]), 0.5 * std::f64::consts::PI, rr[3]),
                     ];
                     let n = 24;
-                    for (cc, a0) in corners.iter() {
+                    for (cc, a0, rad) in corners.iter() {
                         for i in 0..=n {
                             let a = a0 + 0.5 * std::f64::consts::PI * i as f64 / n as f64;
-                            pts.push(point((cc.x as f64 + rad as f64 * a.cos()) as f32, (cc.y as f64 + rad as f64 * a.sin()) as f32));
+                            pts.push(point((cc.x as f64 + *rad as f64 * a.cos()) as f32, (cc.y as f64 + *rad as f64 * a.sin()) as f32));
                         }
                     }
                     if want == Winding::Negative {
                         pts.reverse();
                     }
+                    let rad = rr.iter().fold(0.0f32, |m, x| m.max(*x));
                     let m = pts.len();
                     let edges: Vec<(Point, Point)> = (0..m).map(|i| (pts[i], pts[(i + 1) % m])).collect();
                     let eps = rad as f64 * (1.0 - (std::f64::consts::PI / (4.0 * n as f64)).cos()) + 2e-5 * (w + h) as f64;
@@ -584,11 +670,13 @@ fn curve_case(ctx: &mut Ctx) {
 struct Recorder {
     o: Out,
     n: u32,
+    /// control polygon of everything recorded (for the direction / extent clauses of the oracle)
+    poly: Vec<Point>,
 }
 
 impl Recorder {
     fn new() -> Recorder {
-        Recorder { o: Out::new(), n: 0 }
+        Recorder { o: Out::new(), n: 0, poly: Vec::new() }
     }
     fn id(&mut self) -> EndpointId {
         self.n += 1;
@@ -602,6 +690,7 @@ impl PathBuilder for Recorder {
     }
     fn begin(&mut self, at: Point, _: Attributes) -> EndpointId {
         self.o.t("B").p(at);
+        self.poly.push(at);
         self.id()
     }
     fn end(&mut self, close: bool) {
@@ -609,14 +698,20 @@ impl PathBuilder for Recorder {
     }
     fn line_to(&mut self, to: Point, _: Attributes) -> EndpointId {
         self.o.t("L").p(to);
+        self.poly.push(to);
         self.id()
     }
     fn quadratic_bezier_to(&mut self, ctrl: Point, to: Point, _: Attributes) -> EndpointId {
         self.o.t("Q").p(ctrl).p(to);
+        self.poly.push(ctrl);
+        self.poly.push(to);
         self.id()
     }
     fn cubic_bezier_to(&mut self, ctrl1: Point, ctrl2: Point, to: Point, _: Attributes) -> EndpointId {
         self.o.t("C").p(ctrl1).p(ctrl2).p(to);
+        self.poly.push(ctrl1);
+        self.poly.push(ctrl2);
+        self.poly.push(to);
         self.id()
     }
 }
@@ -817,6 +912,45 @@ fn helper_case(ctx: &mut Ctx) {
                     });
                     if r != 0.0 && r.abs() > 4.0 * tol {
                         orc.check(real.vertices.len() >= 8, "helpers.fillbuilder.add_circle/nonempty", "generic", || format!("{} vertices", real.vertices.len()));
+                    }
+                }
+            }
+            // direction: the control polygon of what a shape helper draws has the sign of the
+            // requested winding (Positive = positive signed area in lyon's y-down convention as
+            // measured by the shoelace sum), whenever the shape is not degenerate
+            if matches!(kind, 0 | 1 | 2 | 3 | 6) && rec.poly.len() >= 3 {
+                let n = rec.poly.len();
+                let a2: f64 = (0..n).map(|i| {
+                    let (p, q) = (rec.poly[i], rec.poly[(i + 1) % n]);
+                    p.x as f64 * q.y as f64 - q.x as f64 * p.y as f64
+                }).sum();
+                let scale: f64 = rec.poly.iter().fold(1e-30f64, |m, p| m.max(p.x.abs() as f64).max(p.y.abs() as f64));
+                let extent = match kind { 0 | 3 | 6 => (size.x.abs().min(size.y.abs())) as f64, 1 => r.abs() as f64, _ => eradii.x.abs().min(eradii.y.abs()) as f64 };
+                let degenerate = match kind { 0 | 3 | 6 => size.x <= 0.0 || size.y <= 0.0, 1 => r == 0.0, _ => eradii.x == 0.0 || eradii.y == 0.0 };
+                if !degenerate && extent > 1e-3 * scale && a2.abs() > 1e-6 * scale * scale {
+                    // a negative circle radius / ellipse radius product flips the drawn direction by construction
+                    // (documented behaviour is only for positive sizes): skip those
+                    let positive_sizes = match kind { 1 => r > 0.0, 2 => eradii.x > 0.0 && eradii.y > 0.0, _ => true };
+                    if positive_sizes {
+                        orc.check((a2 > 0.0) == positive, "helpers/direction", "generic", || format!("{} requested {} but signed area of the control polygon is {}", name, if positive { "Positive" } else { "Negative" }, a2 / 2.0));
+                    }
+                }
+            }
+            // rounded rectangle with radii that fit: every recorded point lies in the box, and the box is
+            // touched exactly where the straight sides are: side k is left at distance r from its corners
+            if matches!(kind, 3 | 6) && size.x > 0.0 && size.y > 0.0 {
+                let (tl, tr, bl, br) = (radii4[0].abs(), radii4[1].abs(), radii4[2].abs(), radii4[3].abs());
+                let fits = tl + tr <= size.x && bl + br <= size.x && tr + br <= size.y && tl + bl <= size.y
+                    && [tl, tr, bl, br].iter().all(|x| *x <= size.x.min(size.y));
+                if fits {
+                    let e = 1e-4 * (c.x.abs().max(c.y.abs()).max(mx.x.abs()).max(mx.y.abs()) as f64 + 1.0);
+                    let has = |q: Point| rec.poly.iter().any(|p| ((p.x - q.x).abs() as f64) <= e && ((p.y - q.y).abs() as f64) <= e);
+                    let want = [
+                        point(c.x, c.y + tl), point(c.x + tl, c.y), point(mx.x - tr, c.y), point(mx.x, c.y + tr),
+                        point(mx.x, mx.y - br), point(mx.x - br, mx.y), point(c.x + bl, mx.y), point(c.x, mx.y - bl),
+                    ];
+                    for (i, q) in want.iter().enumerate() {
+                        orc.check(has(*q), "helpers.rrect/corner-radii", "generic", || format!("no recorded point at tangent point {} = {:?} (radii tl {} tr {} bl {} br {}, box {:?}..{:?})", i, q, tl, tr, bl, br, c, mx));
                     }
                 }
             }
